@@ -31,6 +31,9 @@ def work(case):
     if edits is None:
         edits = editgen.gen_mixed_batch(rng, case["doc"], texts, 3 if case.get("stream") == "bridges" else rng.randint(1, 3),
                                         comment_p=0.1, conflicts=True)
+        if case.get("stream") == "redlined" and rng.random() < 0.5:
+            # a target that crosses the boundary of another reviewer's pending insertion
+            edits += [e for e in editgen.gen_cross_ins_any(rng, case["doc"], texts) if not any(e["pi"] == y.get("pi") for y in edits)]
         if case.get("stream") == "odd":
             # malformed / unusual stream: XML-compatible odd characters as not-found targets and as new text
             for _ in range(rng.randint(1, 3)):
